@@ -133,8 +133,19 @@ fn serializers(bad: &mut Vec<String>) {
                 let w = BW { buf: buf.clone(), budget: b, transient, failed: false };
                 let pulled = Rc::new(Cell::new(0));
                 let src = QSrc { items: qs.clone(), pos: 0, fault: usize::MAX, pulled: pulled.clone() };
-                let r = if nq { NqSerializer::new(w).serialize_quads(src).map(|_| ()) } else { NtSerializer::new(w).serialize_triples(TSrc(src)).map(|_| ()) };
+                // the serializer is kept: after a transient fault it is used again for a second, unrelated stream
+                let mut ser_q = if nq { Some(NqSerializer::new(w)) } else { None };
+                let mut ser_t = if nq { None } else { Some(NtSerializer::new(BW { buf: buf.clone(), budget: b, transient, failed: false })) };
+                let r = if nq { ser_q.as_mut().unwrap().serialize_quads(src).map(|_| ()) } else { ser_t.as_mut().unwrap().serialize_triples(TSrc(src)).map(|_| ()) };
                 let out = buf.borrow().clone();
+                if transient {
+                    let src2 = QSrc { items: qs[..1].to_vec(), pos: 0, fault: usize::MAX, pulled: Rc::new(Cell::new(0)) };
+                    let r2 = if nq { ser_q.as_mut().unwrap().serialize_quads(src2).map(|_| ()) } else { ser_t.as_mut().unwrap().serialize_triples(TSrc(src2)).map(|_| ()) };
+                    let out2 = buf.borrow().clone();
+                    if r2.is_err() || out2[out.len()..] != text_of(1)[..] {
+                        bad.push(format!("{name} reused after a transient writer fault at byte {b}: the second stream wrote {:?} instead of exactly its own single statement", String::from_utf8_lossy(&out2[out.len()..])));
+                    }
+                }
                 match r {
                     Err(StreamError::SinkError(_)) => {}
                     other => bad.push(format!("{name} writer fault at byte {b} (transient={transient}): expected SinkError, got {:?}", other.map_err(|e| e.to_string()))),
